@@ -154,6 +154,7 @@ func (r *FileRestorer) RestoreFile(file *dst.File) (*ast.File, error) {
 	if !ff.SetLines(r.lines) {
 		panic("ff.SetLines failed")
 	}
+	setFileExtent(f, token.Pos(ff.Base()), token.Pos(ff.Base()+ff.Size()))
 
 	if r.Extras {
 		// Sometimes new nodes are created here (e.g. in RangeStmt the "Object" is an AssignStmt
